@@ -150,6 +150,11 @@ func summarizedMixture(mk func() []ScalarEstimator, data func(*rand.Rand, int) [
 }
 
 func hmmScenario(mk func() []ScalarEstimator, data func(*rand.Rand, int) []float64, start, final []int) func(ThreadPool, int, int64) result {
+	return hmmScenarioOpt(mk, data, start, final, 0, true)
+}
+
+// chunk > 0: HmmEstimator.ChunkSize; optimizeTransitions = false: Baum-Welch with the transition matrix held fixed
+func hmmScenarioOpt(mk func() []ScalarEstimator, data func(*rand.Rand, int) []float64, start, final []int, chunk int, optimizeTransitions bool) func(ThreadPool, int, int64) result {
 	return func(p ThreadPool, size int, seed int64) result {
 		rng := rand.New(rand.NewSource(seed))
 		liks := []float64{}
@@ -164,6 +169,8 @@ func hmmScenario(mk func() []ScalarEstimator, data func(*rand.Rand, int) []float
 		if err != nil {
 			return result{Err: "construct: " + err.Error()}
 		}
+		est.ChunkSize = chunk
+		est.OptimizeTransitions = optimizeTransitions
 		xs := make([]ConstVector, size)
 		for i := range xs {
 			xs[i] = NewDenseFloat64Vector(data(rng, 5+rng.Intn(4)))
@@ -307,6 +314,150 @@ func nestedMixtures() []ScalarEstimator {
 	return []ScalarEstimator{mk(-3, -1), mk(1, 3)}
 }
 
+// every sequence is impossible under the model (deterministic emissions, last symbol excluded by the final
+// state): the E-step job fails; sequential and pooled run must fail alike, after the same hook calls
+func deterministicCategoricals() []ScalarEstimator {
+	e1, _ := scalarEstimator.NewCategoricalEstimator([]float64{1.0, 0.0})
+	e2, _ := scalarEstimator.NewCategoricalEstimator([]float64{0.0, 1.0})
+	return []ScalarEstimator{e1, e2}
+}
+func endsInOne(rng *rand.Rand, n int) []float64 {
+	x := countData(rng, n, 2)
+	x[len(x)-1] = 1
+	return x
+}
+
+func manyNormals(k int) func() []ScalarEstimator {
+	return func() []ScalarEstimator {
+		r := make([]ScalarEstimator, k)
+		for i := range r {
+			r[i], _ = scalarEstimator.NewNormalEstimator(float64(2*i-k), 2, 1e-3)
+		}
+		return r
+	}
+}
+
+// mixture with more components than some pools have threads: the per-component jobs of the M-step
+// queue up behind each other
+func scalarMixtureK(k int) func(ThreadPool, int, int64) result {
+	return func(p ThreadPool, size int, seed int64) result {
+		rng := rand.New(rand.NewSource(seed))
+		liks := []float64{}
+		hook := generic.EmHook{Value: func(m generic.BasicMixture, i int, l, e float64) {
+			if i > 0 {
+				liks = append(liks, l)
+			}
+		}}
+		w := make([]float64, k)
+		for i := range w {
+			w[i] = float64(1 + i)
+		}
+		est, err := scalarEstimator.NewMixtureEstimator(w, manyNormals(k)(), 0.0, 3, hook)
+		if err != nil {
+			return result{Err: "construct: " + err.Error()}
+		}
+		x := NewDenseFloat64Vector(normalData(rng, size+3*k))
+		if err := est.EstimateOnData(x, nil, p); err != nil {
+			return result{Err: err.Error(), Liks: liks}
+		}
+		d, err := est.GetEstimate()
+		if err != nil {
+			return result{Err: err.Error(), Liks: liks}
+		}
+		return result{Params: params(d), Liks: liks}
+	}
+}
+
+func vectorMixtureK(k int) func(ThreadPool, int, int64) result {
+	return func(p ThreadPool, size int, seed int64) result {
+		rng := rand.New(rand.NewSource(seed))
+		liks := []float64{}
+		hook := generic.EmHook{Value: func(m generic.BasicMixture, i int, l, e float64) {
+			if i > 0 {
+				liks = append(liks, l)
+			}
+		}}
+		w := make([]float64, k)
+		ests := make([]VectorEstimator, k)
+		for i := range ests {
+			w[i] = 1
+			v, err := vectorEstimator.NewNormalEstimator([]float64{float64(2*i - k), float64(k - 2*i)}, []float64{3, 0, 0, 3}, 0.25)
+			if err != nil {
+				return result{Err: "construct: " + err.Error()}
+			}
+			ests[i] = v
+		}
+		est, err := vectorEstimator.NewMixtureEstimator(w, ests, 0.0, 3, hook)
+		if err != nil {
+			return result{Err: "construct: " + err.Error()}
+		}
+		xs := make([]ConstVector, size+12*k)
+		for i := range xs {
+			xs[i] = NewDenseFloat64Vector(normalData(rng, 2))
+		}
+		if err := est.EstimateOnData(xs, nil, p); err != nil {
+			return result{Err: err.Error(), Liks: liks}
+		}
+		d, err := est.GetEstimate()
+		if err != nil {
+			return result{Err: err.Error(), Liks: liks}
+		}
+		return result{Params: params(d), Liks: liks}
+	}
+}
+
+// independent scalar estimators per dimension (ScalarId), one estimator for all dimensions (ScalarIid),
+// and the batch variant (ScalarBatchId)
+func scalarIdScenario(kind string, weighted bool) func(ThreadPool, int, int64) result {
+	return func(p ThreadPool, size int, seed int64) result {
+		rng := rand.New(rand.NewSource(seed))
+		e1, _ := scalarEstimator.NewNormalEstimator(0, 1, 1e-3)
+		e2, _ := scalarEstimator.NewPoissonEstimator(1)
+		e3, _ := scalarEstimator.NewGeometricEstimator(0.5)
+		e4, _ := scalarEstimator.NewNormalEstimator(5, 3, 1e-3)
+		var est interface {
+			EstimateOnData(x []ConstVector, gamma ConstVector, p ThreadPool) error
+			GetEstimate() (VectorPdf, error)
+		}
+		var err error
+		dim := 4
+		switch kind {
+		case "id":
+			est, err = vectorEstimator.NewScalarId(e1, e2, e3, e4)
+		case "iid":
+			est, err = vectorEstimator.NewScalarIid(e2, dim)
+		}
+		if err != nil {
+			return result{Err: "construct: " + err.Error()}
+		}
+		n := size + 3
+		xs := make([]ConstVector, n)
+		for i := range xs {
+			v := []float64{math.Round(rng.NormFloat64()*8) / 8, float64(rng.Intn(7)), float64(rng.Intn(5)), math.Round((5+3*rng.NormFloat64())*8) / 8}
+			if kind == "iid" {
+				v = []float64{float64(rng.Intn(7)), float64(rng.Intn(4)), float64(rng.Intn(9)), float64(rng.Intn(3))}
+			}
+			xs[i] = NewDenseFloat64Vector(v)
+		}
+		var gamma ConstVector
+		if weighted {
+			g := make([]float64, n)
+			for i := range g {
+				g[i] = math.Log(float64(1 + rng.Intn(4)))
+			}
+			gamma = NewDenseFloat64Vector(g)
+		}
+		if err := est.EstimateOnData(xs, gamma, p); err != nil {
+			return result{Err: err.Error()}
+		}
+		d, err := est.GetEstimate()
+		if err != nil {
+			return result{Err: err.Error()}
+		}
+		return result{Params: params(d)}
+	}
+}
+
 func scenarios() []scenario {
 	return []scenario{
 		{"vhmm-nested-mixture", "", hmmScenario(nestedMixtures, normalData, nil, nil)},
@@ -333,6 +484,15 @@ func scenarios() []scenario {
 			return scalarEstimator.NewCategoricalEstimator([]float64{0.2, 0.2, 0.2, 0.1, 0.1, 0.1, 0.1})
 		}, counts, true)},
 		{"vnormal", "", vectorNormal},
+		{"smix-normal-5comp", "em", scalarMixtureK(5)},
+		{"vmix-normal-3comp", "em", vectorMixtureK(3)},
+		{"vmix-normal-4comp", "", vectorMixtureK(4)},
+		{"vhmm-categorical-chunked", "bw", hmmScenarioOpt(categoricals, binary, nil, nil, 3, true)},
+		{"vhmm-categorical-fixed-transitions", "", hmmScenarioOpt(categoricals, binary, nil, nil, 0, false)},
+		{"vhmm-impossible-final", "", hmmScenarioOpt(deterministicCategoricals, endsInOne, nil, []int{0}, 0, true)},
+		{"vscalarid", "", scalarIdScenario("id", false)},
+		{"vscalarid-weighted", "", scalarIdScenario("id", true)},
+		{"vscalariid-weighted", "", scalarIdScenario("iid", true)},
 	}
 }
 
